@@ -515,17 +515,22 @@ def step (toks : List String) : String :=
       resStr bitsStr
         (unpackCoils b c (List.replicate o false))
     | _, _, _ => "BADOP"
+  | ["unpack", h, c, o, "T"] => match parseHex h, parseU16 c, o.toNat? with
+    | some b, some c, some o =>
+      resStr bitsStr
+        (unpackCoils b c (List.replicate o true))
+    | _, _, _ => "BADOP"
   | ["packedlen", n] => match n.toNat? with
     | some n => toString (packedCoilsLen n) | none => "BADOP"
   | ["frombools", bits, t, f, is] => match mkCoils bits t f, parseIdxList is with
     | some r, some idxs =>
       resStr (fun (c : Coils) =>
-        s!"{c.len} {c.packedLen} {b01 c.isEmpty} {coilsStr c} gx={String.ofList (idxs.map fun i => coilChar (c.get i))} it={match c.iter with | .ok l => bitsStr l | _ => "!"}") r
+        s!"{c.len} {c.packedLen} {b01 c.isEmpty} {coilsStr c} gx={String.ofList (idxs.map fun i => coilChar (c.get i))} it={match c.iter with | .ok l => bitsStr l | _ => "!"} nx={String.ofList (idxs.map fun i => coilChar (c.get i))} n1={String.ofList (idxs.map fun i => coilChar (c.get (i + 1)))}") r
     | _, _ => "BADOP"
   | ["fromwords", ws, t, f, is] => match mkData ws t f, parseIdxList is with
     | some r, some idxs =>
       resStr (fun (d : Data) =>
-        s!"{d.len} {b01 d.isEmpty} {dataStr d} gx={",".intercalate (idxs.map fun i => wordStr (d.get i))} it={match d.iter with | .ok l => "W" ++ ",".intercalate (l.map hex16) | _ => "!"}") r
+        s!"{d.len} {b01 d.isEmpty} {dataStr d} gx={",".intercalate (idxs.map fun i => wordStr (d.get i))} it={match d.iter with | .ok l => "W" ++ ",".intercalate (l.map hex16) | _ => "!"} nx={",".intercalate (idxs.map fun i => wordStr (d.get i))} n1={",".intercalate (idxs.map fun i => wordStr (d.get (i + 1)))}") r
     | _, _ => "BADOP"
   | ["fcnew", b] => match parseU8 b with
     | some b => s!"{fcName (FunctionCode.new b)} {(FunctionCode.new b).value}" | none => "BADOP"
